@@ -495,6 +495,8 @@ class FrameExecutor(AlgoExecutor):
             if ls.n is None:
                 ls.n = Num(z3.Int(dsl.fresh_name("card")), False, True)
                 st.assume(ls.n.r >= 0)
+            # cardinality: no members iff it is zero (the only facts about it the proofs use)
+            st.ghost["label_schemas"] = st.ghost.get("label_schemas", []) + [lambda x, ls=ls: Implies(ls.mem(x), ls.n.r >= 1)]
             return [(st, ls.n)]
         if name == "int" and len(pos) == 1:
             v = self._num(st, pos[0])
@@ -780,3 +782,200 @@ def _w_load_sub(self, st, base, i):
 
 
 FrameExecutor.ext_load_subscript = _w_load_sub
+
+
+# ---------------------------------------------------------------------------------------------
+# dict comprehensions over label collections / dict items:  {k: f(k, v) for k[, v] in xs[.items()]}
+def _expr_DictComp(self, e, st):
+    if len(e.generators) != 1:
+        self._undecided("nested dict comprehension")
+    g = e.generators[0]
+    out = []
+    for (s, xs) in self.eval(g.iter, st):
+        if isinstance(xs, _Raised):
+            out.append((s, xs))
+            continue
+        xv = fresh_label("key")
+        s2 = s.fork()
+        if isinstance(xs, (ListLV, IndexLV)) and isinstance(g.target, ast.Name):
+            mem = xs.ls.mem
+            s2.locals[g.target.id] = StrV(xv)
+        elif isinstance(xs, DictKeysV) and xs.kind == "items" and isinstance(g.target, ast.Tuple) and len(g.target.elts) == 2:
+            d0 = xs.d
+            mem = lambda x, d0=d0, s=s: dict_has(s.heap, d0.ref, x)
+            s2.locals[g.target.elts[0].id] = StrV(xv)
+            s2.locals[g.target.elts[1].id] = dict_get(s.heap, d0.ref, xv)
+        elif isinstance(xs, (DictObjV, DictKeysV)) and isinstance(g.target, ast.Name):
+            d0 = xs.d if isinstance(xs, DictKeysV) else xs
+            mem = lambda x, d0=d0, s=s: dict_has(s.heap, d0.ref, x)
+            s2.locals[g.target.id] = StrV(xv)
+        else:
+            self._undecided("dict comprehension over %r" % (xs,))
+        if not (isinstance(e.key, ast.Name) and isinstance(s2.locals.get(e.key.id), StrV) and z3.eq(s2.locals[e.key.id].term, xv)):
+            self._undecided("dict comprehension key is not the loop variable")
+        conds = []
+        for c in g.ifs:
+            rs = self.eval(c, s2)
+            if len(rs) != 1 or isinstance(rs[0][1], _Raised):
+                self._undecided("branching comprehension filter")
+            conds.append(self.truth(s2, rs[0][1]))
+        vs = self.eval(e.value, s2)
+        if len(vs) != 1 or isinstance(vs[0][1], _Raised):
+            self._undecided("branching comprehension value")
+        val = self._num(s2, vs[0][1])
+        cf = And(*conds) if conds else True
+        d = dsl.fresh_ref("dictcomp")  # contents defined by the schematic fact below (no initial store)
+        _dmaps(s.heap)
+        for other in list(s.ghost.values()) + list(s.locals.values()):
+            if isinstance(other, DictObjV):
+                s.assume(d != other.ref)
+        # definition of the new dict, as schematic facts instantiated at the labels of interest
+        def fact(x, d=d, mem=mem, cf=cf, val=val, xv=xv, s=s):
+            sub = lambda t: t if isinstance(t, bool) else z3.substitute(t, (xv, x))
+            has = And(mem(x), sub(cf) if not isinstance(cf, bool) else cf)
+            v = Num(sub(val.r) if True else val.r, sub(val.nan) if not isinstance(val.nan, bool) else val.nan, val.is_int)
+            return And(dict_has(s.heap, d, x) == _zbb(has), Implies(has, dsl.same(dict_get(s.heap, d, x), v)))
+        s.ghost["label_schemas"] = s.ghost.get("label_schemas", []) + [fact]
+        out.append((s, DictObjV(d, "{k: ... for k in ...}")))
+    return out
+
+
+FrameExecutor.expr_DictComp = _expr_DictComp
+
+
+# ---------------------------------------------------------------------------------------------
+# label lists built from dict keys, concatenation, set(), and iteration over a label collection
+class LimitV(object):
+    """LimitDeltas.limit: a global float or a per-ticker dict, selected by global_limit"""
+
+    def __init__(self, num, dref):
+        self.num, self.dref = num, dref
+
+
+_old_load_attr3 = FrameExecutor.ext_load_attr
+
+
+def _k_load_attr(self, st, obj, attr):
+    from .heap import DictV as _DictV
+
+    if isinstance(obj, _DictV) and obj.field == "children" and attr == "keys":
+        return [(st, BoundFn("childkeys", "keys", recv=obj))]
+    if isinstance(obj, RefV) and attr == "limit" and obj.cls != "LimitDeltas":
+        return [(st, st.heap.get(obj, "limit_f"))]
+    if isinstance(obj, RefV) and obj.cls == "LimitDeltas" and attr == "limit":
+        f = z3.Function("limit_dict", dsl.Ref, dsl.Ref)
+        return [(st, LimitV(st.heap.get(obj, "limit_f"), f(obj.term)))]
+    if isinstance(obj, RefV) and obj.cls == "WeighSpecified" and attr == "weights":
+        f = z3.Function("specified_weights", dsl.Ref, dsl.Ref)
+        return [(st, DictObjV(f(obj.term), "self.weights"))]
+    return _old_load_attr3(self, st, obj, attr)
+
+
+FrameExecutor.ext_load_attr = _k_load_attr
+
+_old_call_value3 = FrameExecutor.ext_call_value
+
+
+def _k_call_value(self, st, f, pos, kw):
+    if isinstance(f, BoundFn) and f.kind == "childkeys":
+        owner = f.recv.owner
+        h = st.heap
+        nameord = z3.Function("child_name_order", dsl.Ref, S, I)
+        return [(st, ListLV(LabelSet(lambda x, h=h: h.dict_has(owner, "children", StrV(x)), lambda x: nameord(owner.term, x), "children.keys()")))]
+    return _old_call_value3(self, st, f, pos, kw)
+
+
+FrameExecutor.ext_call_value = _k_call_value
+
+_old_builtin3 = FrameExecutor.ext_builtin
+
+
+def _k_builtin(self, st, name, pos, kw):
+    if name in ("list", "set") and len(pos) == 1:
+        v = pos[0]
+        if isinstance(v, DictKeysV) and v.kind == "keys":
+            h = st.heap.copy()
+            d = v.d
+            return [(st, ListLV(LabelSet(lambda x: dict_has(h, d.ref, x), lambda x: dkey_pos(d.ref, x), "list(dict.keys())")))]
+        if isinstance(v, DictObjV):
+            h = st.heap.copy()
+            return [(st, ListLV(LabelSet(lambda x: dict_has(h, v.ref, x), lambda x: dkey_pos(v.ref, x), "list(dict)")))]
+        if name == "set" and isinstance(v, (ListLV, IndexLV)):
+            return [(st, ListLV(LabelSet(v.ls.mem, v.ls.ord, "set(%s)" % v.ls.desc)))]
+    return _old_builtin3(self, st, name, pos, kw)
+
+
+FrameExecutor.ext_builtin = _k_builtin
+
+
+def _k_binop(self, op, a, b, st):
+    if isinstance(op, ast.Add) and isinstance(a, ListLV) and isinstance(b, ListLV):
+        return [(st, ListLV(LabelSet(lambda x: Or(a.ls.mem(x), b.ls.mem(x)), a.ls.ord, "concat")))]
+    return None
+
+
+FrameExecutor.ext_binop = _k_binop
+
+_old_iter_adapter = FrameExecutor.iter_adapter
+
+
+def _k_iter_adapter(self, it, st):
+    if isinstance(it, (ListLV, IndexLV)):
+        tok = getattr(it.ls, "tok", None)
+        if tok is None:
+            tok = dsl.fresh_ref("coll")
+            it.ls.tok = tok
+        ls = it.ls
+        n = Num(dlen_f(tok), False, True)
+        from .contracts import ForallInt as _FA
+
+        # enumeration of the collection: positions 0..n-1 are exactly its members, each once
+        st.ghost["schemas"] = st.ghost.get("schemas", []) + [_FA(0, n, lambda j, ls=ls, tok=tok: And(_zbb(ls.mem(dkey_at(tok, Num.lift(j).r))), dkey_pos(tok, dkey_at(tok, Num.lift(j).r)) == Num.lift(j).r), name="je")]
+
+        def elem(s, i, ls=ls, tok=tok):
+            k = dkey_at(tok, Num.lift(i).r)
+            i_ = Num.lift(i)
+            s.assume(Implies(And(i_.r >= 0, i_.r < dlen_f(tok)), And(_zbb(ls.mem(k)), dkey_pos(tok, k) == i_.r)))
+            return StrV(k)
+
+        return n, elem, None
+    return _old_iter_adapter(self, it, st)
+
+
+FrameExecutor.iter_adapter = _k_iter_adapter
+
+_old_load_sub3 = FrameExecutor.ext_load_subscript
+
+
+def _k_load_sub(self, st, base, i):
+    if isinstance(base, LimitV) and isinstance(i, StrV):
+        out = []
+        for (s, b) in self.branch(st, dict_has(st.heap, base.dref, i.term)):
+            out.append((s, dict_get(s.heap, base.dref, i.term)) if b else (s, _Raised("KeyError")))
+        return out
+    return _old_load_sub3(self, st, base, i)
+
+
+FrameExecutor.ext_load_subscript = _k_load_sub
+
+_old_in3 = FrameExecutor.ext_in
+
+
+def _k_in(self, a, b, st):
+    if isinstance(b, LimitV) and isinstance(a, StrV):
+        return dict_has(st.heap, b.dref, a.term)
+    return _old_in3(self, a, b, st)
+
+
+FrameExecutor.ext_in = _k_in
+
+_old_num = FrameExecutor._num
+
+
+def _k_num(self, st, v):
+    if isinstance(v, LimitV):
+        return v.num
+    return _old_num(self, st, v)
+
+
+FrameExecutor._num = _k_num
